@@ -173,7 +173,7 @@ def enumerate_faults(m, doc, rng, charset, icvn, kinds=None, alphabet=None):
                 is_time = el.dtype == 'TM' or (ft and 'TM' in ft)
                 if 'bad_date' in kinds and is_date:
                     types = ([el.dtype] if el.dtype in V.DATE_TYPES else []) + (ft or [])
-                    cands = ['20041301', '20040231', '99999999', '041301', '999999', '20041301-20040101', '200413011200']
+                    cands = rng.sample(['20041301', '20040231', '19000229', '20010229', '21000229'], 5) + ['99999999', '041301', '999999', '20041301-20040101', '200413011200']
                     if rng.random() < 0.5:
                         # a value that is a member of *another* date/time format than the declared one(s)
                         cands = ['20040101-20040105', '1230', '040101', '123045'] + cands
@@ -306,7 +306,7 @@ def segment_faults(m, doc, rng, kinds):
         same_node_lines = [k for k in range(*_inst_range(doc, line)) if doc[k]['uid'] == seg['uid']]
         if 'missing_required_seg' in kinds and node.usage == 'R' and not first_of_loop and len(same_node_lines) == 1 \
                 and seg['id'] not in ('HL', 'LX', 'CLM', 'BHT'):
-            if line + 1 < len(doc) and doc[line + 1]['id'] != 'SE':
+            if line + 1 < len(doc):
                 ctx = 'plain'
                 if line >= 1 and doc[line - 1].get('opens') is not None and doc[line + 1].get('opens') == doc[line - 1].get('opens'):
                     ctx = 'opener-then-repeat'     # the instance is left with its opening segment only and the loop repeats
@@ -318,7 +318,9 @@ def segment_faults(m, doc, rng, kinds):
                     slack += 1
                     k += 1
                 if k < len(doc) and doc[k]['id'] == 'SE':
-                    continue
+                    # the gap is only certain at the SE, whose position the running count does not include:
+                    # rejection and the error are demanded, the position is not
+                    ctx = 'before-SE'
                 out.append({'kind': 'missing_required_seg', 'line': line, 'op': 'delete', 'code': '3', 'neutral': True,
                             'seg_id': seg['id'], 'ele': None, 'comp': None, 'value': None, 'ref': None, 'ctx': ctx, 'slack': slack})
         if 'seg_over_max' in kinds and not first_of_loop and node.max_repeat() <= 3 and len(same_node_lines) == node.max_repeat() \
